@@ -104,7 +104,9 @@ func VerifHarness_C16_Spellings() {
 	fine := []struct {
 		s  string
 		ns int64
-	}{{"1700000000.123456789", 1700000000123456789}, {"1700000000.000001", 1700000000000001000}, {"1700000000.9996", 1700000000999600000}, {"1700000000.5", 1700000000500000000}}
+	}{{"1700000000.123456789", 1700000000123456789}, {"1700000000.000001", 1700000000000001000}, {"1700000000.9996", 1700000000999600000}, {"1700000000.5", 1700000000500000000},
+		// fractions of 4..9 digits whose double, multiplied by 1e9, falls just below the decimal value
+		{"1700000000.0321", 1700000000032100000}, {"1700000000.0331", 1700000000033100000}, {"1700000000.1251", 1700000000125100000}, {"1700000000.00401", 1700000000004010000}, {"1700000000.03201", 1700000000032010000}, {"1700000000.03301", 1700000000033010000}, {"1700000000.001004", 1700000000001004000}, {"1700000000.008025", 1700000000008025000}, {"1700000000.066199", 1700000000066199000}, {"1700000000.0020061", 1700000000002006100}, {"1700000000.0080241", 1700000000008024100}, {"1700000000.0661981", 1700000000066198100}, {"1700000000.00100301", 1700000000001003010}, {"1700000000.06419201", 1700000000064192010}, {"1700000000.12738101", 1700000000127381010}, {"1700000000.250752251", 1700000000250752251}, {"1700000000.252758269", 1700000000252758269}, {"1700000000.253761278", 1700000000253761278}}
 	for _, f := range fine {
 		t, err := parseTimestamp(lokiapi.LokiTime(f.s), def)
 		if err == nil && t.UnixNano() != f.ns && (t.UnixNano()-f.ns < 1000000 && f.ns-t.UnixNano() < 1000000) {
